@@ -91,6 +91,13 @@ func ZZC20(n int) {
 			zzv.Cover("pool-reuse-after-late-write")
 			zzv.Assert(ctx.Count() == 0 && ctx.Path == "", "pooled-context-does-not-start-empty")
 		}
+		// the accessors are used between the steps too: whatever they cache must not outlive the next step
+		for _, k := range []string{"a", "b"} {
+			want, has := zzShadowGet(sh, k)
+			got, ok := ctx.Get(k)
+			zzv.Assert(ok == has && got == want, "Get-between-steps-disagrees-with-what-was-set")
+			zzv.Assert(ctx.Exists(k) == has && ctx.Count() == len(sh), "Exists-or-Count-between-steps-disagrees-with-what-was-set")
+		}
 	}
 	zzv.Cover("sequence")
 	// Count / Get / Exists / String / MustString / Range against the shadow
